@@ -248,10 +248,7 @@ func Lock(m Locker, site string) {
 		return
 	}
 	if t.abort {
-		// unwinding: never block
-		if !m.TryLock() {
-			panic(abortSentinel{})
-		}
+		m.TryLock() // unwinding: best effort, never block
 		return
 	}
 	handOff(t, site)
@@ -279,15 +276,23 @@ func unblock(m interface{}) {
 //
 //go:norace
 func Unlock(m Locker, site string) {
-	m.Unlock()
 	t := cur
+	if t != nil && t.abort {
+		// unwinding after a deadlock / step limit: the lock may or may not be
+		// held; unlocking an unlocked mutex is fatal, so settle it first
+		if m.TryLock() {
+			m.Unlock()
+			return
+		}
+		m.Unlock()
+		unblock(m)
+		return
+	}
+	m.Unlock()
 	if t == nil {
 		return
 	}
 	unblock(m)
-	if t.abort {
-		return
-	}
 	handOff(t, site)
 }
 
@@ -299,9 +304,7 @@ func RLock(m RLocker, site string) {
 		return
 	}
 	if t.abort {
-		if !m.TryRLock() {
-			panic(abortSentinel{})
-		}
+		m.TryRLock()
 		return
 	}
 	handOff(t, site)
@@ -464,6 +467,7 @@ func (s *Sim) Run() error {
 	}
 	active = s
 	defer endRun()
+	resetSyncSim()
 	startWatchdog()
 
 	if s.policy == PCT {
